@@ -1376,7 +1376,14 @@ def partial_reduce(
     # to stay within limits (maybe because the iterator doesn't free the previous object
     # before getting the next). We also need extra memory to hold two reduced chunks, since
     # they are concatenated two at a time.
-    extra_projected_mem = x.chunkmem + 2 * array_memory(dtype, to_chunksize(chunks))
+    reduced_chunk_mem = array_memory(dtype, to_chunksize(chunks))
+    extra_projected_mem = x.chunkmem + 2 * reduced_chunk_mem
+    if initial_func is not None:
+        # the output of initial_func and its reduction are both held (in addition to the
+        # accumulated result and the concatenated pair) while a block is being combined; they
+        # can be larger than the input chunk when the intermediate dtype is wider and the
+        # chunk is thin along the reduced axes
+        extra_projected_mem += 2 * reduced_chunk_mem
 
     return general_blockwise(
         _partial_reduce,
